@@ -91,6 +91,7 @@ func (p *polling) onPollRequest(ctx *types.HttpContext) {
 		return
 	}
 
+	vhook.Yield("polling.onPollRequest.checked")
 	p.req.Store(ctx)
 
 	polling_log.Debug("setting request")
@@ -144,6 +145,7 @@ func (p *polling) onDataRequest(ctx *types.HttpContext) {
 		return
 	}
 
+	vhook.Yield("polling.onDataRequest.checked")
 	p.dataCtx.Store(ctx)
 
 	var cleanup types.Callable
